@@ -533,6 +533,25 @@ def gen_C15(seed, tier):
 
 
 # ------------------------------------------------------------------------------------------------
+def frac_det(A):
+    """exact determinant (fraction Gauss elimination with row exchanges)"""
+    A = [list(r) for r in A]
+    n, det = len(A), F(1)
+    for c in range(n):
+        p = next((r for r in range(c, n) if A[r][c] != 0), None)
+        if p is None:
+            return F(0)
+        if p != c:
+            A[c], A[p] = A[p], A[c]
+            det = -det
+        det *= A[c][c]
+        for r in range(c + 1, n):
+            f = A[r][c] / A[c][c]
+            for k in range(c, n):
+                A[r][k] -= f * A[c][k]
+    return det
+
+
 # C16: header-level operations on explicit arguments
 def gen_C16(seed, tier):
     g = G.Gen(seed)
@@ -607,6 +626,16 @@ def gen_C16(seed, tier):
             g.r.shuffle(A)                          # make pivoting do some work
         b = [g.small(-3, 3) for _ in range(k)]
         ops.append("gauss %d %s %s" % (k, " ".join(G.frs(r) for r in A), G.frs(b)))
+        # sparse small-integer systems (exactly non-singular): zero entries on and off the diagonal, so that
+        # the column pivoting must swap repeatedly and a slot's physical column differs from its index when
+        # a zero turns up in a later diagonal slot (found with seeded C16e)
+        for _ in range(40):
+            k2 = g.r.randint(3, 5)
+            A2 = [[F(g.r.choice([0, 0, 0, 1, 1, -1, 2, -2, 3, 4])) for _ in range(k2)] for _ in range(k2)]
+            if frac_det(A2) != 0:
+                b2 = [F(g.r.randint(-4, 4)) for _ in range(k2)]
+                ops.append("gauss %d %s %s" % (k2, " ".join(G.frs(r) for r in A2), G.frs(b2)))
+                break
         for o in ops:
             out.append("alg " + o)
             cnt += 1
@@ -717,7 +746,10 @@ def gen_cs(prefix, seed, tier, nq, nt, calls_fn, classes, fext_prob=0.0, baumgar
 
 def calls_C09(g, mb, cb):
     c = ["call CJ 1 1", "call CPE 1 1", "call CVE 1 1", "call CSV 1 1",
-         "poison %d" % g.r.randint(1, 10 ** 6), "call UKC 1", "call CJ 0 0", "call CPE 0 0"]
+         "poison %d" % g.r.randint(1, 10 ** 6), "call UKC 1", "call CJ 0 0", "call CPE 0 0",
+         # gamma with the flag cleared: everything it is built from (positions, velocities and the
+         # qddot = 0 acceleration pass) must still be recomputed or current (found with seeded C08e)
+         "call CSV 0 1"]
     # the reported position error OFF the manifold (the documented quantity: relative displacement and
     # sine-scaled relative rotation in predecessor-frame axes); only the error is compared there
     c += [mb.render_q(mb.perturb_q(cb.q_ents, F(1, 4))), "call CPE 1 1"]
@@ -748,6 +780,10 @@ def calls_C08(g, mb, cb):
     # root-frame mode with kinematics update, local mode on the cache; certificates CF.map / CF.opp*
     c.append("call CF 1 1")
     c.append("call CF 0 0")
+    # the three methods with the update flag cleared, directly after the position update they document
+    # (certificates FDC.eom / FDC.acc are evaluated as for the flag-set calls; seeded C08e)
+    c.append("call UKC 1")
+    c.append("call FDC %d 0 1" % g.r.randint(0, 2))
     if not cb.has_loop:
         # Kokkevis on the same set after the wrench read-out: nothing the read-out leaves in the
         # per-set scratch may enter (FDC.eom / FDC.acc / FDC.agree)
@@ -1686,7 +1722,7 @@ PROPS = {
             "explanation": "monitor: rigid union from the definitions (parallel-axis theorem about the union's centre of mass); twin comparison setter-model vs rebuilt model on the implementation; correspondence with the Lean Body.join/separate and setter model",
             "assumptions": COMMON_ASSUMPTIONS},
     "C16": {"gen": gen_C16, "extra_props": ["C16From", "GenLaws", "GenLaws2"],
-            "rule": "every compact operator of SpatialAlgebraOperators.h / Quaternion.h / rbdl_mathutils on random rational arguments (rational rotations, translations, inertias, unit quaternions incl. rotations by half a turn with trace -1, diagonally dominant shuffled systems for the Gauss solver); distinct = number of (operator, argument) pairs",
+            "rule": "every compact operator of SpatialAlgebraOperators.h / Quaternion.h / rbdl_mathutils on random rational arguments (rational rotations, translations, inertias, unit quaternions incl. rotations by half a turn with trace -1, diagonally dominant shuffled systems and sparse small-integer non-singular systems with zeros on the diagonal for the Gauss solver); distinct = number of (operator, argument) pairs",
             "explanation": "46 theorems: each compact operator equals its 6x6 matrix definition, composition laws, power invariance, quaternion laws; Props/C16From (16 thms): the four-branch Quaternion::fromMatrix of the source returns a unit quaternion with the same matrix for EVERY rotation, half-turns included (no side condition on the trace; sqrt only assumed to be a square root at the arguments passed); correspondence: the C++ operator vs the Lean definition on explicit arguments",
             "assumptions": COMMON_ASSUMPTIONS},
     "C08": {"gen": gen_C08, "extra_props": ["C08Phys", "C08PhysKkt", "C08Forces"],
